@@ -1,1 +1,42 @@
+import SpoxModel.Model.Inline
+import SpoxModel.Generated.InlineFacts
 /-! Property theorems for C08 (only property-level statements and non-vacuity examples live here). -/
+namespace C08
+open Inline
+
+/-! ### `normalise_pure`: the caller's model is never modified by `inline()` -/
+
+theorem run_loc_some {α : Type} (f : Nat → α → α) (sts : List Stmt) (k : Nat) (c x : α) :
+    (Own.run f sts k ⟨c, some x⟩).caller = c := by
+  induction sts generalizing k x with
+  | nil => rfl
+  | cons st sts ih => cases st <;> simp [Own.run, Own.step, ih]
+
+/-- for every statement list in which no mutation precedes the copy, and whatever the mutations do,
+    the caller's object has the same content afterwards -/
+theorem copyFirst_pure {α : Type} (f : Nat → α → α) (sts : List Stmt) (k : Nat) (c : α)
+    (h : copyFirst sts = true) : (Own.run f sts k ⟨c, none⟩).caller = c := by
+  induction sts generalizing k with
+  | nil => rfl
+  | cons st sts ih =>
+    cases st with
+    | copy => simp [Own.run, Own.step, run_loc_some]
+    | mutate => simp [copyFirst] at h
+    | read => simpa [Own.run, Own.step] using ih (k + 1) (by simpa [copyFirst] using h)
+    | other => simpa [Own.run, Own.step] using ih (k + 1) (by simpa [copyFirst] using h)
+
+/-- the statement list extracted from `/repo` on this run copies before it mutates, through a
+    `_copy_model` that returns a fresh object -/
+theorem generated_copy_first :
+    copyFirst Generated.InlineFacts.stmts = true ∧ Generated.InlineFacts.copyFresh = true := by decide
+
+/-- `inline(m)` leaves `m` unchanged (for the code as extracted on this run) -/
+theorem normalise_pure {α : Type} (f : Nat → α → α) (c : α) :
+    (Own.run f Generated.InlineFacts.stmts 0 ⟨c, none⟩).caller = c :=
+  copyFirst_pure f _ 0 c generated_copy_first.1
+
+/-- non-vacuity: without the copy the caller's object does change -/
+theorem no_copy_counterexample :
+    (Own.run (fun _ (n : Nat) => n + 1) [.read, .mutate] 0 ⟨0, none⟩).caller ≠ 0 := by decide
+
+end C08
